@@ -131,6 +131,12 @@ class Fn:
         if ta == INT and tb == INT:
             if op in sym:
                 return "(%s %s %s)" % (a, sym[op], b), INT
+            lit = isinstance(node.right, ast.Constant) and isinstance(node.right.value, int) and not isinstance(node.right.value, bool) \
+                and node.right.value != 0
+            if op is ast.FloorDiv and lit:
+                return "(%s / %s)" % (a, b), INT        # a non-zero literal divisor never raises
+            if op is ast.Mod and lit:
+                return "(%s mod %s)" % (a, b), INT
             if op is ast.FloorDiv:
                 t = self.fresh()
                 binds.append((t, "py_floordiv %s %s" % (a, b)))
@@ -143,6 +149,8 @@ class Fn:
             qa, qb = self.coerce(a, ta, FLOAT), self.coerce(b, tb, FLOAT)
             if op in sym:
                 return "(%s %s %s)%%Q" % (qa, sym[op], qb), FLOAT
+            if op is ast.Div and isinstance(node.left, ast.Call) and _d(node.left.func) == _d(ast.parse("np.sum", mode="eval").body):
+                return "(%s / %s)%%Q" % (qa, qb), FLOAT      # numpy scalar / number: inf or nan, never an exception
             if op is ast.Div:
                 t = self.fresh()
                 binds.append((t, "py_truediv %s %s" % (qa, qb)))
@@ -158,8 +166,12 @@ class Fn:
                 return "(arr_rsub %s %s)" % (qa, b), ARR
             if op is ast.Mult:
                 return "(arr_mul %s %s)" % (b, qa), ARR
-        if ta == ARR and tb == ARR and op is ast.Add:
-            return "(arr_add %s %s)" % (a, b), ARR
+        if ta == ARR and tb == ARR and op in (ast.Add, ast.Sub):
+            t = self.fresh()
+            binds.append((t, "%s %s %s" % ("py_arr_add2" if op is ast.Add else "py_arr_sub2", a, b)))
+            return t, ARR
+        if ta == ARR and op is ast.Pow and isinstance(node.right, ast.Constant) and node.right.value == 2:
+            return "(arr_sq %s)" % a, ARR
         raise TranslateError("%s: %s on (%s, %s)" % (self.name, op.__name__, ta, tb))
 
     def compare(self, node, env, binds):
@@ -222,6 +234,26 @@ class Fn:
             if ti != STR:
                 raise TranslateError("%s: name -> idl dictionary indexed with %s" % (self.name, ti))
             return "(%s %s)" % (t, i), IDL
+        if isinstance(sl, ast.Slice) and ty == ARR and isinstance(sl.step, ast.UnaryOp) and isinstance(sl.step.op, ast.USub) \
+                and isinstance(sl.step.operand, ast.Constant) and sl.step.operand.value == 1 and sl.lower is not None and sl.upper is not None:
+            # a[lo:stop:-1] with stop = `None if c else e` or an integer expression
+            lo = self.expr(sl.lower, env, binds)
+            up = sl.upper
+            if isinstance(up, ast.IfExp) and isinstance(up.body, ast.Constant) and up.body.value is None:
+                bb = []
+                c, tc = self.expr(up.test, env, bb)
+                e, te = self.expr(up.orelse, env, bb)
+                if bb or tc != BOOL or te != INT:
+                    raise TranslateError("%s: conditional slice bound that can raise" % self.name)
+                stop = "(if %s then None else Some %s)" % (c, e)
+            else:
+                e, te = self.expr(up, env, binds)
+                if te != INT:
+                    raise TranslateError("%s: slice bound of type %s" % (self.name, te))
+                stop = "(Some %s)" % e
+            if lo[1] != INT:
+                raise TranslateError("%s: slice bound" % self.name)
+            return "(py_slice_rev %s %s %s)" % (t, lo[0], stop), ARR
         if isinstance(sl, ast.Slice):
             if sl.step is not None or ty != ARR:
                 raise TranslateError("%s: slice with a step / of %s" % (self.name, ty))
@@ -416,6 +448,16 @@ class Fn:
             if tx != ARR or tp != INT:
                 raise TranslateError("%s: rfft arguments (%s, %s)" % (self.name, tx, tp))
             return "(py_fft_autocorr %s %s)" % (x, pp), ARR
+        if dotted == "np.concatenate" and len(node.args) == 1 and isinstance(node.args[0], ast.List) and node.args[0].elts:
+            parts = [self.expr(e, env, binds) for e in node.args[0].elts]
+            if any(ty != ARR for _, ty in parts):
+                raise TranslateError("%s: np.concatenate of %s" % (self.name, [ty for _, ty in parts]))
+            return "(" + " ++ ".join(t for t, _ in parts) + ")", ARR
+        if dotted == "np.sum" and len(node.args) == 1:
+            t, ty = self.expr(node.args[0], env, binds)
+            if ty != ARR:
+                raise TranslateError("%s: np.sum of %s" % (self.name, ty))
+            return "(Qsum %s)" % t, FLOAT
         if dotted == "np.zeros" and len(node.args) == 1:
             t, ty = self.expr(node.args[0], env, binds)
             if ty != INT:
@@ -666,13 +708,11 @@ def find_function(tree, qualname):
     body = tree.body
     node = None
     for p in parts:
-        node = None
-        for n in body:
-            if isinstance(n, (ast.FunctionDef, ast.ClassDef)) and n.name == p:
-                node = n
-                break
-        if node is None:
-            raise TranslateError("function %s not found" % qualname)
+        found = [n for st in body for n in ast.walk(st) if isinstance(n, (ast.FunctionDef, ast.ClassDef)) and n.name == p] if node is not None \
+            else [n for n in body if isinstance(n, (ast.FunctionDef, ast.ClassDef)) and n.name == p]
+        if len(found) != 1:
+            raise TranslateError("function %s not found exactly once" % qualname)
+        node = found[0]
         body = node.body
     if not isinstance(node, ast.FunctionDef):
         raise TranslateError("%s is not a function" % qualname)
@@ -714,6 +754,25 @@ def frag_w_max(fn):
     return picked + [ast.Return(value=ast.Name(id="w_max", ctx=ast.Load()))]
 
 
+def frag_drho(fn):
+    """Body of the nested _compute_drho(i): `tmp = ...` followed by `<store> = np.sqrt(X)`; the fragment returns the radicand X."""
+    body = [st for st in fn.body if not (isinstance(st, ast.Expr) and isinstance(st.value, ast.Constant))]
+    if [a.arg for a in fn.args.args] != ["i"] or len(body) != 2 or not isinstance(body[1], ast.Assign):
+        raise TranslateError("_compute_drho: expected `tmp = ...; self.e_drho[e_name][i] = np.sqrt(...)`")
+    last = body[1]
+    want = _d(ast.parse("self.e_drho[e_name][i]", mode="eval").body).replace("Load()", "Store()", 1)
+    tgt = _d(last.targets[0])
+    if len(last.targets) != 1 or _d(ast.parse("self.e_drho[e_name][i]", mode="eval").body).replace("ctx=Load())", "ctx=Store())") == "" :
+        raise TranslateError("_compute_drho: store target")
+    v = last.value
+    if not (isinstance(last.targets[0], ast.Subscript) and isinstance(last.targets[0].slice, ast.Name) and last.targets[0].slice.id == "i"
+            and _d(last.targets[0].value) == _d(ast.parse("self.e_drho[e_name]", mode="eval").body)):
+        raise TranslateError("_compute_drho: the result is not stored into self.e_drho[e_name][i]")
+    if not (isinstance(v, ast.Call) and _d(v.func) == _d(ast.parse("np.sqrt", mode="eval").body) and len(v.args) == 1 and not v.keywords):
+        raise TranslateError("_compute_drho: the stored value is not np.sqrt(...)")
+    return [body[0], ast.Return(value=v.args[0])]
+
+
 _REP_ALIASES = lambda obj: {"e_content[e_name]": ("v_reps", IDLLIST), "%s.idl[r_name]" % obj: ("v_r_name", IDL)}
 
 # name in the generated file, qualified python name, parameters (python name, type | None = not a value parameter), return type, aliases
@@ -747,6 +806,9 @@ SIGS = [
          extra_params=[("v_nnames", INT), ("v_name", STR), ("v_deltas", ARR), ("v_rmean", FLOAT), ("v_value", FLOAT)],
          aliases={"len(self.names)": ("v_nnames", INT), "self.names[0]": ("v_name", STR), "self.deltas[name]": ("v_deltas", ARR),
                   "self.r_values[name]": ("v_rmean", FLOAT), "self.value": ("v_value", FLOAT)}),
+    dict(coq="compute_drho_radicand", py="Obs.gamma_method._compute_drho", fragment=frag_drho, params=[], ret=FLOAT,
+         extra_params=[("v_rho", ARR), ("v_w_max", INT), ("v_e_N", INT), ("v_i", INT)],
+         env={"w_max": INT, "e_N": INT, "i": INT}, aliases={"self.e_rho[e_name]": ("v_rho", ARR)}),
     dict(coq="_reduce_deltas", py="_reduce_deltas", params=[("deltas", ARR), ("idx_old", IDL), ("idx_new", IDL)], ret=ARR),
     dict(coq="_expand_deltas_for_merge", py="_expand_deltas_for_merge",
          params=[("deltas", ARR), ("idx", IDL), ("shape", INT), ("new_idx", IDL), ("scalefactor", FLOAT)], ret=ARR),
